@@ -269,3 +269,19 @@ Theorem C17_checker_check_type_is_identity_on_concrete_trees_partial : forall f 
   check_type f e t = COk e' -> conc_e e = true -> e' = e /\ ty_of e = t.
 Proof. exact check_type_conc. Qed.
 Print Assumptions C17_checker_check_type_is_identity_on_concrete_trees_partial.
+
+(* ---- SOUNDNESS for the reference rules, at program level, for a Boolean fragment of the untyped
+   program (Check/InferSound.v): no consts / structs / enums, parameter types concrete, every number
+   literal and range suffixed and in the range of its suffix, no calls / match / struct / enum
+   forms; all 16 binary operators, unary operators, casts, if, blocks, array and tuple literals and
+   accesses, ranges, let / let mut with or without annotation and tuple patterns, assignment through
+   index / tuple accessor chains, for loops.  For such a program: accepted by the (model of the)
+   real checker => the typed program satisfies the reference rules Wt.v, hence (C17_accepted_never_
+   inconsistent) never reaches a typing inconsistency in Sem.v. *)
+Theorem C17_checker_sound_on_the_suffixed_fragment_partial : forall intern : list N -> N,
+  (forall a b, intern a = intern b -> a = b) ->
+  forall fuel P P',
+    in_sound_fragment P = true -> (fuel <= S Wt.wt_fuel)%nat ->
+    check_program intern fuel P = COk P' -> Wt.wt_program P' = true.
+Proof. exact check_sound_fragment. Qed.
+Print Assumptions C17_checker_sound_on_the_suffixed_fragment_partial.
